@@ -206,4 +206,57 @@ theorem step_stage_cases (c : C14.Flush.Cfg) (hcap : 0 < c.capCP) (s : C14.Flush
     have := cuStage_of_ctl (step_ctl c s o hf h1 h2 h3 (fun n hn => h4 ⟨n, hn⟩))
     exact ⟨this.2, by rw [this.1]; exact Nat.le_refl _⟩
 
+/-- what is still to come of the command processor's round (0: no round open; at most 13) -/
+def fullMu (σ : Comp) : Nat :=
+  match σ.cu.cp with
+  | .idle => 0
+  | .flushSent => 11 + cuStage σ.cu
+  | .acked => 3 + (if σ.robPh = 0 then 7 else roundMu σ)
+  | .restartSent => 1 + cuStage σ.cu
+
+/-- the event of the whole round that is due -/
+def helpfulF (c : Cfg) (σ : Comp) : CEv → Bool
+  | .cu .tick =>
+    (σ.cu.cp == .flushSent || σ.cu.cp == .restartSent) &&
+    (!σ.cu.cpIn.isEmpty || (σ.cu.ackPending && decide (σ.cu.cpOut.length < c.cu.capCP)))
+  | .cu (.take .c n) =>
+    (σ.cu.cp == .flushSent || σ.cu.cp == .restartSent) && decide (0 < n) && !σ.cu.cpOut.isEmpty
+  | .rob (.ctl m) =>
+    σ.cu.cp == .acked &&
+    ((decide (σ.robPh = 0) && m.discard && !m.restart && decide (σ.sys.rob.ctlIn.length < c.rob.ctlInCap)) ||
+     helpfulR c σ (.rob (.ctl m)))
+  | e => σ.cu.cp == .acked && helpfulR c σ e
+
+def helpfulCountF (c : Cfg) : Comp → List CEv → Nat
+  | _, [] => 0
+  | σ, e :: es => (if helpfulF c σ e then 1 else 0) + helpfulCountF c (cstep c σ e) es
+
+/-- the compute unit's part of one composed event, classified -/
+theorem cstep_stage_cases (c : Cfg) (hcap : 0 < c.cu.capCP) (σ : Comp) (e : CEv) (hl : legalB c σ e = true)
+    (h : Lite σ.cu) :
+    let σ' := cstep c σ e
+    (σ'.cu.cp = σ.cu.cp ∧ cuStage σ'.cu ≤ cuStage σ.cu) ∨ σ.cu.cp = .idle ∨
+    (σ.cu.cp = .flushSent ∧ σ'.cu.cp = .acked) ∨
+    (σ.cu.cp = .acked ∧ σ'.cu.cp = .restartSent ∧ cuStage σ'.cu ≤ 2) ∨
+    (σ.cu.cp = .restartSent ∧ σ'.cu.cp = .idle) := by
+  intro σ'
+  have hcu := cstep_cu c σ e
+  rcases ho : cuOp c σ e with _ | o
+  · rw [ho] at hcu; simp only at hcu
+    left; show (cstep c σ e).cu.cp = _ ∧ cuStage (cstep c σ e).cu ≤ _
+    rw [hcu]; exact ⟨rfl, Nat.le_refl _⟩
+  · rw [ho] at hcu; simp only at hcu
+    show ((cstep c σ e).cu.cp = _ ∧ cuStage (cstep c σ e).cu ≤ _) ∨ _ ∨ (_ ∧ (cstep c σ e).cu.cp = _) ∨
+      (_ ∧ (cstep c σ e).cu.cp = _ ∧ cuStage (cstep c σ e).cu ≤ 2) ∨ (_ ∧ (cstep c σ e).cu.cp = _)
+    rw [hcu]
+    exact step_stage_cases c.cu hcap σ.cu o h (cuOp_legalL c σ e hl o ho)
+
+theorem fullMu_zero {σ : Comp} (h : fullMu σ = 0) : σ.cu.cp = .idle := by
+  unfold fullMu at h
+  split at h
+  · assumption
+  · omega
+  · omega
+  · omega
+
 end C15.Cu
